@@ -695,6 +695,8 @@ func extraC08(c *Ctx, r *Report) {
 		return
 	}
 	var cas *ssa.Call
+	outer := fn
+	fn = breakerBody(c, fn)
 	eachInstr(fn, func(in ssa.Instruction) {
 		if call, ok := in.(*ssa.Call); ok {
 			if kind, o, f, _, isA := atomicFieldCall(in); isA && kind == "cas" && isNamed(o, pkgHealth, "circuitState") && cfield(o, f) == "lastAttempt" {
@@ -702,7 +704,7 @@ func extraC08(c *Ctx, r *Report) {
 			}
 		}
 	})
-	key := fname(fn) + ":stale-slot-release"
+	key := fname(outer) + ":stale-slot-release"
 	if cas == nil {
 		r.Undecided("C08-R7", key, fn.Pos(), "half-open slot acquisition (CAS on lastAttempt) not found")
 		return
